@@ -1,20 +1,116 @@
-(* Verdict functions evaluated by the generated case files (engine rt). *)
+(* Verdict functions and decidable trace predicates evaluated by the generated case files (engine rt).
+   Each C0n_ok is evaluated on the IMPLEMENTATION's trace; Proofs files show it holds of the model's. *)
 From Coq Require Import List Arith Bool NArith.
 From Crux Require Import Rt.Lang Rt.Rt Rt.Host.
 Import ListNotations.
 
-(* (under_core?, command, handlers, schedule, implementation trace) *)
-Definition rtcase := (bool * cmd * handlers * list action * list obs)%type.
+(* (under_core?, drained?, command, handlers, schedule, implementation trace) *)
+Definition rtcase := (bool * bool * cmd * handlers * list action * list obs)%type.
 
 Definition model_trace (c : rtcase) : option (list obs) :=
-  match c with (core, p, hs, acts, _) => if core then under_core hs acts else direct p acts end.
+  match c with (core, _, p, hs, acts, _) => if core then under_core FUEL0 hs acts else direct FUEL0 p acts end.
 
-(* 0 = model and implementation agree; 1 = they differ; 3 = model out of fuel *)
-Definition verdict_rt (c : rtcase) : N :=
-  match c with (_, _, _, _, impl) =>
+Definition no_panic (t : list obs) : bool := forallb (fun o => match o with OPanic => false | _ => true end) t.
+
+Fixpoint is_prefix (a b : list event) : bool :=
+  match a, b with
+  | [], _ => true
+  | x :: a', y :: b' => event_eqb x y && is_prefix a' b'
+  | _ :: _, [] => false
+  end.
+
+(* ---- C01 (Core host): a Noop probe directly after a call returns no effects and only appends itself
+        to the log: nothing runnable was left behind, nothing was deferred to a later call ---- *)
+Fixpoint C01_probes (acts : list action) (t : list obs) (prev : option (list event)) : bool :=
+  match acts, t with
+  | a :: acts', o :: t' =>
+    match o with
+    | OCall 0 effs lg =>
+      let ok := match a, prev with
+                | AEvent 99 0, Some plog =>
+                    match effs with [] => list_eqb event_eqb lg (plog ++ [mkEv 99 0 []]) | _ :: _ => false end
+                | _, _ => true
+                end in
+      ok && C01_probes acts' t' (Some lg)
+    | OCall _ _ _ => C01_probes acts' t' prev   (* rejected resolution: process() did not run *)
+    | OResolve _ => C01_probes acts' t' prev    (* no such request: nothing was called *)
+    | _ => C01_probes acts' t' None      (* a drop / abort in between: the next call legitimately finds work *)
+    end
+  | _, _ => true
+  end.
+Definition C01_ok (c : rtcase) : bool :=
+  match c with (core, _, _, _, acts, t) => no_panic t && (negb core || C01_probes acts t None) end.
+
+(* ---- C03 (Core host): the log only grows, a submitted event is applied first and exactly once ---- *)
+Fixpoint C03_log (acts : list action) (t : list obs) (plog : list event) : bool :=
+  match acts, t with
+  | a :: acts', o :: t' =>
+    match o with
+    | OCall _ _ lg =>
+      is_prefix plog lg &&
+      match a with
+      | AEvent tg v => match skipn (length plog) lg with e :: _ => event_eqb e (mkEv tg v []) | [] => false end
+      | _ => true
+      end && C03_log acts' t' lg
+    | _ => C03_log acts' t' plog
+    end
+  | _, _ => true
+  end.
+Definition C03_ok (c : rtcase) : bool :=
+  match c with (core, _, _, _, acts, t) => no_panic t && (negb core || C03_log acts t []) end.
+
+(* ---- C06 (direct host, abort of the outermost command): after the abort, outputs already emitted can
+        be taken once; nothing new ever appears; done as soon as both have been taken; late resolutions
+        do not panic ---- *)
+Definition top_names (p : cmd) : list nat := cx_name (compile p).
+Fixpoint C06_after (t : list obs) (acts : list action) (seen_eff seen_ev : bool) : bool :=
+  match acts, t with
+  | _ :: acts', o :: t' =>
+    match o with
+    | OEffects l => (negb seen_eff || match l with [] => true | _ => false end) && C06_after t' acts' true seen_ev
+    | OEvents l => (negb seen_ev || match l with [] => true | _ => false end) && C06_after t' acts' seen_eff true
+    | ODone b _ => (negb (seen_eff && seen_ev) || b) && C06_after t' acts' seen_eff seen_ev
+    | OPanic => false
+    | _ => C06_after t' acts' seen_eff seen_ev
+    end
+  | _, _ => true
+  end.
+Fixpoint C06_scan (names : list nat) (acts : list action) (t : list obs) : bool :=
+  match acts, t with
+  | a :: acts', _ :: t' =>
+    match a with
+    | AAbort n => if existsb (Nat.eqb n) names then C06_after t' acts' false false else C06_scan names acts' t'
+    | _ => C06_scan names acts' t'
+    end
+  | _, _ => true
+  end.
+Definition C06_ok (c : rtcase) : bool :=
+  match c with (core, _, p, _, acts, t) => no_panic t && (core || C06_scan (top_names p) acts t) end.
+
+(* ---- C07 (direct host): done implies no task is held; once every request has been resolved or
+        dropped (drain phase of the harness) the command reports done ---- *)
+Definition C07_done_sound (t : list obs) : bool :=
+  forallb (fun o => match o with ODone true (S _) => false | _ => true end) t.
+Definition C07_ok (c : rtcase) : bool :=
+  match c with (core, drained, _, _, _, t) =>
+    no_panic t && (core || (C07_done_sound t &&
+      (negb drained || match last t ONone with ODone true 0 => true | _ => false end)))
+  end.
+
+(* verdicts: 0 agree and ok; 1 model <> implementation but ok holds of the implementation's trace;
+   2 ok fails on the implementation's trace; 3 model out of fuel *)
+Definition verdict_with (ok : rtcase -> bool) (c : rtcase) : N :=
+  match c with (_, _, _, _, _, impl) =>
+    if negb (ok c) then 2%N else
     match model_trace c with
     | None => 3%N
     | Some t => if list_eqb obs_eqb t impl then 0%N else 1%N
     end
   end.
-Definition verdicts_rt (cs : list rtcase) : list N := map verdict_rt cs.
+Definition verdicts_C01 (cs : list rtcase) : list N := map (verdict_with C01_ok) cs.
+Definition verdicts_C03 (cs : list rtcase) : list N := map (verdict_with C03_ok) cs.
+Definition verdicts_C06 (cs : list rtcase) : list N := map (verdict_with C06_ok) cs.
+Definition verdicts_C07 (cs : list rtcase) : list N := map (verdict_with C07_ok) cs.
+(* coverage: which model branches a case reaches (direct host only) *)
+Definition branches (c : rtcase) : list nat :=
+  match c with (core, _, p, _, acts, _) => if core then [] else direct_log FUEL0 p acts end.
